@@ -10,3 +10,10 @@ inl = set(sys.argv[3:])
 ps = sym.through_loops(b, prog, keep_back=True, inline=inl) if b.loops() else sym.paths_of(b, prog, inline=inl)
 for p in ps:
     print(p.kind, "|", " & ".join(sym.show_atom(c) for c in p.conds), "|", sym.show(p.value) if isinstance(p.value, tuple) else p.value)
+    import os
+    if os.environ.get("DBG_ENV"):
+        for l, v in sorted(p.env.items()):
+            if v != ("L", l):
+                print("      env L%s := %s" % (l, sym.show(v)))
+        for e in p.events:
+            print("      event", e[0], [sym.show(x) if isinstance(x, tuple) and x and isinstance(x[0], str) else x for x in e[1:]])
